@@ -13,6 +13,8 @@ import (
 	"github.com/jonboulle/clockwork"
 	"github.com/rs/zerolog/log"
 	"google.golang.org/protobuf/proto"
+
+	"github.com/avos-io/goat/internal/verifhook"
 )
 
 // OnConnect can be called by the GoatOverHttp to indicate that a new client has
@@ -159,6 +161,7 @@ func (goh *GoatOverHttp) ServeHTTP(w http.ResponseWriter, r *http.Request) {
 		go goh.onConnect(source, conn)
 	}
 
+	verifhook.At("http.deliver", rpc.GetId())
 	conn.readCh <- &rpc
 }
 
